@@ -15,7 +15,8 @@ RULE = (
     "second entity under entity-name pairs chosen so that all iteration orders of the watched-name set occur; "
     "attribute + wildcard; time period; event; mqtt; webhook; @service; startup+shutdown; combination) and both "
     "subsystems; file engine: every sequence over {edit+reload, delete+reload, #-rename+reload, restore+reload, "
-    "reload(name), occurrence, unload} on a script file. Oracle: a reference-count model of live function generations "
+    "reload(name), occurrence, unload} on a script file, once as it is and once with definitions that are gone again before "
+    "the file has finished loading (a first f replaced by the real one, a function deleted right away). Oracle: a reference-count model of live function generations "
     "gives, after every step (gc.collect + quiescence), the exact multiset of runs (none by a dead generation, "
     "startup/shutdown once per definition/removal), and the resource census (bus listeners, services, webhooks, MQTT "
     "subscriptions, pyscript subscription tables, tasks, timers) must equal the census of a fresh world in which "
@@ -27,6 +28,8 @@ ASSUMPTIONS = [
     "observation happens after gc.collect() and loop quiescence: only eventual deactivation is required",
     "the census of a directly built live set is the reference for the same live set reached through any history",
     "the integration's own three services and HA's internal listeners are part of the baseline on both sides",
+    "a definition that is replaced or deleted before its file has finished loading never became active: whether it still gets its 'startup' / "
+    "'shutdown' entries is not decided here (legacy runs 'shutdown' for it), every other run or resource of it is a violation",
 ]
 MAXTASKS = 30
 
@@ -385,14 +388,46 @@ def _mark(s, fail):
 FILE_OPS = ["EDIT", "DELETE", "HASH", "RESTORE", "RELOADNAME", "OCC", "UNLOAD"]
 
 
-def file_src(mix, gen):
-    return "runs = []\n" if gen is None else (PRELUDE + def_src(mix, gen))
+def ghost_src(mix, gen):
+    """Definitions that are gone again before the file has finished loading: a first `f` that the real one replaces,
+    and a function that is deleted; both carry negative generation numbers and must never run or own anything."""
+    return (def_src(mix, -gen) + decs_src(mix) + "def ghost(**kw):\n    GENV = %d\n" % (-1000 - gen) + BODY + "del ghost\n")
 
 
-def run_file(mixname, legacy, seq):
+def file_src(mix, gen, ghost=False):
+    if gen is None:
+        return "runs = []\n"
+    return PRELUDE + (ghost_src(mix, gen) if ghost else "") + def_src(mix, gen)
+
+
+_FILE_CANON = {}
+
+
+def file_canon_census(mixname, legacy):
+    """Census of a world that loaded the file without the short-lived definitions."""
+    from mc.world import World
+
+    key = (mixname, legacy)
+    if key not in _FILE_CANON:
+        w = World({"hello.py": file_src(MIXES[mixname], 1)}, legacy=legacy)
+        try:
+            for ent in ("pyscript.a", "pyscript.b"):
+                w.hass.states.async_set(ent, "0", {"x": 0})
+            w.settle()
+            w.collect()
+            c = w.census()
+            c.pop("tasks", None)
+            _FILE_CANON[key] = c
+        finally:
+            w.close()
+    return _FILE_CANON[key]
+
+
+def run_file(mixname, legacy, seq, ghost=False):
     from mc.world import World
 
     mix = MIXES[mixname]
+    canon = file_canon_census(mixname, legacy) if ghost else None
     w0 = World({}, legacy=legacy)
     try:
         base = w0.census()
@@ -400,7 +435,7 @@ def run_file(mixname, legacy, seq):
     finally:
         w0.close()
     runs_log = []
-    w = World({"hello.py": file_src(mix, 1)}, legacy=legacy)
+    w = World({"hello.py": file_src(mix, 1, ghost)}, legacy=legacy)
     try:
         for ent in ("pyscript.a", "pyscript.b"):
             w.hass.states.async_set(ent, "0", {"x": 0})
@@ -417,7 +452,9 @@ def run_file(mixname, legacy, seq):
                 return []
             out = [tuple(r) for r in g.get("runs", [])]
             del g["runs"][:]
-            return out
+            # whether a definition that is gone before its file finished loading gets its startup / shutdown entry is
+            # left open (see ASSUMPTIONS); every other run of such a definition is a violation
+            return [r for r in out if not (r[0] < 0 and r[2] in ("startup", "shutdown"))]
 
         carried = harvest()  # startup runs of generation 1
         exp0 = [(1, "time", "startup")] if keys.get("updown") else []
@@ -431,7 +468,7 @@ def run_file(mixname, legacy, seq):
             pre = []
             if op == "EDIT":
                 gen += 1
-                w.write("hello.py" if present else "#hello.py", file_src(mix, gen))
+                w.write("hello.py" if present else "#hello.py", file_src(mix, gen, ghost))
                 if present:
                     pre = harvest_before_reload(w)
                     w.reload()
@@ -460,7 +497,7 @@ def run_file(mixname, legacy, seq):
                     w.rename("#hello.py", "hello.py")
                     w.touch("hello.py")
                 else:
-                    w.write("hello.py", file_src(mix, gen))
+                    w.write("hello.py", file_src(mix, gen, ghost))
                 present = True
                 w.reload()
                 live = gen
@@ -494,7 +531,7 @@ def run_file(mixname, legacy, seq):
                         exp.append((live, "event", None))
             w.collect()
             w.collect()
-            obs = [r for r in pre] + harvest()
+            obs = [r for r in pre if not (r[0] < 0 and r[2] in ("startup", "shutdown"))] + harvest()
             if op != "OCC" and old_live != live:
                 ol = int(str(old_live).split(":")[-1]) if old_live is not None else None
                 if ol is not None and (keys.get("updown") or keys.get("down")):
@@ -507,6 +544,8 @@ def run_file(mixname, legacy, seq):
                 return {"kind": kind, "step": i, "op": op, "expected": exp, "observed": obs}, trace
             cen = w.census()
             cen.pop("tasks", None)
+            if ghost and live is not None and not unloaded and cen != canon:
+                return {"kind": "short-lived-definition-left-something", "step": i, "op": op, "diff": census_diff(canon, cen)}, trace
             if live is None and not unloaded and cen != base:
                 return {"kind": "leak-vs-baseline", "step": i, "op": op, "diff": census_diff(base, cen)}, trace
             if unloaded:
@@ -577,6 +616,11 @@ def plan(tier, seed):
     for mixname in ("state1", "event", "updown", "combo", "service"):
         for legacy in (False, True):
             shards.append(("file", mixname, legacy, depth))
+    # the same file histories with definitions that are replaced / deleted while the file is still loading
+    for mixname in ("state1", "event", "updown", "combo", "service", "time", "mqtt", "webhook"):
+        if mixname in MIXES:
+            for legacy in (False, True):
+                shards.append(("fileghost", mixname, legacy, depth if tier == "thorough" else 2))
     return shards
 
 
@@ -604,8 +648,8 @@ def run_shard(shard):
     else:
         _, mixname, legacy, depth = shard
         for seq in EX.sequences(FILE_OPS, depth):
-            fail, trace = run_file(mixname, legacy, seq)
-            record(res, "file", mixname, legacy, seq, fail, trace, None)
+            fail, trace = run_file(mixname, legacy, seq, ghost=kind == "fileghost")
+            record(res, kind, mixname, legacy, seq, fail, trace, None)
     return res
 
 
@@ -625,5 +669,5 @@ def replay(case):
     if case["engine"] == "session":
         fail, trace, m, skipped = run_session(case["mix"], case["legacy"], tuple(case["seq"]))
     else:
-        fail, trace = run_file(case["mix"], case["legacy"], tuple(case["seq"]))
+        fail, trace = run_file(case["mix"], case["legacy"], tuple(case["seq"]), ghost=case["engine"] == "fileghost")
     return {"ok": fail is None, "failure": fail, "trace": [(op, list(obs)) for op, obs in trace]}
